@@ -166,6 +166,11 @@ fn vq_c06_sliding_window_insert() {
         Err(_) => false,
     };
     assert!(sw_insert_evicted_at(he, e, code, he2, e2, qq, m_q, rep_q), "C06/sliding_window.insert/evicted_report_exact");
+    let rep_wf = match &res {
+        Ok(ev) => evicted_inv(ev),
+        Err(_) => true,
+    };
+    assert!(rep_wf, "C06/sliding_window.insert/evicted_report_iterable_within_pn_range");
     assert!(sw_inv_at(he2, e2, qq, m_q2), "C06/sliding_window.insert/inv_preserved");
     assert!(rep_inv(&w), "C06/sliding_window.insert/rep_inv_preserved");
 
@@ -181,5 +186,113 @@ fn vq_c06_sliding_window_insert() {
     kani::cover!(rep_q, "reach:evicted_reported");
     kani::cover!(code == sw_ok() && m_q && !sw_in_window(he2, e2, qq), "reach:seen_falls_out_of_window");
     kani::cover!(pn == MAXV && code == sw_ok(), "reach:max");
+    kani::cover!(true, "reach:end");
+}
+
+// ---- public wrappers ---------------------------------------------------------------------------------
+// `insert` / `insert_with_evicted` = `insert_with_evicted_inner` + (dev profile only) the crate's own self-check
+// `check_insert_result(&self, ..)`, which cannot change the window (it takes `&self`) and whose nested 129-iteration
+// loops are out of reach from an arbitrary state.  Quick tier: the wrappers equal the contracted inner function on the
+// full domain with the self-check stubbed out (listed as a stub; in release builds it does not exist at all).
+// Thorough tier: the real self-check is executed (unwind 130, as the in-tree harness does) wherever its loops stay
+// tractable -- first insert into an empty window and inserts that do not slide the window.
+fn no_self_check(_w: &SlidingWindow, _pn: PacketNumber, _initial: SlidingWindow, _res: &Result<EvictedSet, SlidingWindowError>) {}
+
+//@ harness props=C06,C16 tier=quick level=full timeout=300
+//@ fn SlidingWindow::insert
+//@ fn SlidingWindow::insert_with_evicted
+#[kani::proof]
+#[kani::unwind(2)]
+#[kani::stub(SlidingWindow::check_insert_result, no_self_check)]
+fn vq_c06_sliding_window_public_insert() {
+    let w0 = any_window();
+    let pn: u64 = kani::any();
+    kani::assume(pn <= MAXV);
+    let mut a = w0.clone();
+    let mut b = w0.clone();
+    let mut c = w0.clone();
+    let ra = a.insert_with_evicted_inner(pn_of(pn));
+    let rb = b.insert_with_evicted(pn_of(pn));
+    let rc = c.insert(pn_of(pn));
+    assert!((a.window, a.right_edge) == (b.window, b.right_edge), "C06/sliding_window.insert_with_evicted/state_is_inner");
+    assert!((a.window, a.right_edge) == (c.window, c.right_edge), "C06/sliding_window.insert/state_is_inner");
+    assert!(ra.is_ok() == rb.is_ok(), "C06/sliding_window.insert_with_evicted/verdict_is_inner");
+    if let (Ok(x), Ok(y)) = (&ra, &rb) {
+        assert!(x.window == y.window && x.right_edge == y.right_edge, "C06/sliding_window.insert_with_evicted/report_is_inner");
+    }
+    if let (Err(x), Err(y)) = (&ra, &rb) {
+        assert!(x == y, "C06/sliding_window.insert_with_evicted/error_is_inner");
+    }
+    assert!(rc == ra.as_ref().map(|_| ()).map_err(|e| *e), "C06/sliding_window.insert/result_is_inner_without_report");
+    kani::cover!(ra.is_ok(), "reach:ok");
+    kani::cover!(ra == Err(SlidingWindowError::Duplicate), "reach:duplicate");
+    kani::cover!(ra == Err(SlidingWindowError::TooOld), "reach:too_old");
+    kani::cover!(true, "reach:end");
+}
+
+//@ harness props=C06,C16 tier=thorough level=bounded timeout=1500 bound="real dev-profile self-check (129-iteration loops, unwind 130) only for: first insert into an empty window, or pn <= right_edge (window does not slide); sliding inserts are covered without the self-check by vq_c06_sliding_window_insert / _public_insert"
+//@ fn SlidingWindow::insert
+//@ fn SlidingWindow::insert_with_evicted
+//@ fn SlidingWindow::check_insert_result
+#[kani::proof]
+#[kani::unwind(130)]
+fn vq_c06_sliding_window_public_insert_self_check() {
+    let mut w = any_window();
+    let pn: u64 = kani::any();
+    kani::assume(pn <= MAXV);
+    kani::assume(!has_edge(&w) || (pn as i128) <= edge(&w));
+    let (he, e, m_pn) = (has_edge(&w), edge(&w), member(&w, pn));
+    let res = w.insert(pn_of(pn));
+    let code = code_of(res);
+    // reaching this point means the crate's own self-check did not fire
+    assert!(sw_insert_code_is_check(he, e, pn as i128, m_pn, code), "C06/sliding_window.insert/public_verdict_is_check_of_old_state");
+    assert!(sw_insert_edge_is_max(he, e, pn as i128, code, has_edge(&w), edge(&w)), "C06/sliding_window.insert/public_right_edge_is_max");
+    assert!(code != sw_ok() || member(&w, pn), "C06/sliding_window.insert/public_accepted_pn_is_recorded");
+    kani::cover!(code == sw_ok() && !he, "reach:first_insert");
+    kani::cover!(code == sw_ok() && he, "reach:fill_gap");
+    kani::cover!(code == sw_duplicate(), "reach:duplicate");
+    kani::cover!(code == sw_too_old(), "reach:too_old");
+    kani::cover!(true, "reach:end");
+}
+
+// ---- EvictedSet iterator -------------------------------------------------------------------------------
+/// what `insert_with_evicted_inner` establishes for the report it returns: advancing the right edge over all reported
+/// bits stays inside the packet number range (the new right edge is at most 2^62-1)
+fn evicted_inv(ev: &EvictedSet) -> bool {
+    ev.window == 0 || ev.right_edge.as_u64() + 128 - (ev.window.trailing_zeros() as u64) <= MAXV
+}
+
+//@ harness props=C06,C16 tier=thorough level=full timeout=1500
+//@ fn EvictedSet::next
+#[kani::proof]
+#[kani::unwind(130)]
+fn vq_c06_evicted_set_next() {
+    // one step of the iterator from an arbitrary report (including the spurious bits below packet number 0 that
+    // `!window & mask` produces): it yields the smallest reported packet number and removes exactly that one; by
+    // induction the iterator enumerates the reported set in increasing order, each member once
+    let e: u64 = kani::any();
+    let bits: u128 = kani::any();
+    let q: u64 = kani::any();
+    kani::assume(e <= MAXV && q <= MAXV);
+    let mut ev = EvictedSet { window: bits, right_edge: pn_of(e) };
+    kani::assume(evicted_inv(&ev));
+    let old_q = reported(&ev, q);
+    let r = ev.next();
+    let new_q = reported(&ev, q);
+    match r {
+        None => {
+            assert!(!old_q, "C06/evicted_set.next/none_only_when_empty");
+        }
+        Some(m) => {
+            let m = m.as_u64();
+            assert!(m < e && e - m <= 128 && (bits >> (e - m - 1)) & 1 == 1, "C06/evicted_set.next/yields_a_reported_number");
+            assert!(!old_q || q >= m, "C06/evicted_set.next/yields_the_smallest_first");
+            assert!(new_q == (old_q && q != m), "C06/evicted_set.next/removes_exactly_the_yielded_number");
+        }
+    }
+    assert!(evicted_inv(&ev), "C06/evicted_set.next/inv_preserved");
+    kani::cover!(r.is_none() && bits != 0, "reach:only_spurious_bits");
+    kani::cover!(r.is_some() && bits.leading_zeros() == 0, "reach:leading_bit");
+    kani::cover!(r.is_some() && e < 128, "reach:near_zero");
     kani::cover!(true, "reach:end");
 }
